@@ -737,13 +737,20 @@ static int parse_option(struct uftrace_opts *opts, int key, char *arg)
 		opts->patch = opt_add_prefix_string(opts->patch, "!", arg);
 		break;
 
-	case 'Z':
-		opts->size_filter = strtol(arg, NULL, 0);
-		if (opts->size_filter <= 0) {
+	case 'Z': {
+		long size = strtol(arg, NULL, 0);
+
+		if (size <= 0) {
 			pr_use("--size-filter should be positive\n");
-			opts->size_filter = 0;
+			size = 0;
 		}
+		else if (size > INT_MAX) {
+			/* no function is that big: do not wrap around to a small filter */
+			size = INT_MAX;
+		}
+		opts->size_filter = size;
 		break;
+	}
 
 	case 'E':
 		if (!strcmp(arg, "list")) {
